@@ -2,13 +2,14 @@
 Proof: Props/Properties_C09.v (publish-on-drain invariant of the sequential queue model, every
 history); refutation for the unfixed guard (D3). Tie: T-src (commit_read guard skeleton) + T-corr."""
 import json, os
-from vlib import Check, standard_proof_phase, correspond, ddmin
+from vlib import Check, standard_proof_phase, correspond, ddmin, VERIF
 import bq_common as B
+import uq_common as U
 from props.c01 import srcfacts_values
 
 PID = 'C09'
 MANIFEST = dict(
-    text='Machine-checked (Coq): for every capacity, batch threshold and history of writes/commits/reads/commit_reads of the bounded queue, whenever the consumer has read everything and has run commit_read since its last read (the backend pass discipline), the published reader position equals the real one and every record that fits the capacity is granted - so a blocking producer resumes and a dropping queue accepts (C09_no_stall, C09_published_exact), with the guard of commit_read read from the source on every run; the pinned tree\'s guard is refuted (D3, fixed). Tied to the real queue by differential runs and a direct monitor. Scope: bounded queue and the queue-level reason for progress; the unbounded-queue clause (D13 open) and the "finitely many backend polls" clause at backend level are not yet covered by a theorem here.',
+    text='Machine-checked (Coq): for every capacity, batch threshold and history of writes/commits/reads/commit_reads of the bounded queue, whenever the consumer has read everything and has run commit_read since its last read (the backend pass discipline), the published reader position equals the real one and every record that fits the capacity is granted - so a blocking producer resumes and a dropping queue accepts (C09_no_stall, C09_published_exact), with the guard of commit_read read from the source on every run; the pinned tree\'s guard is refuted (D3, fixed). Tied to the real queue by differential runs and a direct monitor. Unbounded-queue clause (Props/Properties_C09u.v, sequential M-UQ model tied to the real UnboundedSPSCQueue): at consumer quiescence every record n <= max is granted when the maximum capacity is a power of two (C09_unbounded_no_stall), and for any maximum every n <= 2^floor(log2 max) (C09_unbounded_no_stall_prev_pow2); for a maximum that is not a power of two the remaining sizes are refuted (uq_nonpow2_refuted; D13, open finding replayed on every run). Scope: the queue-level reason for progress; the "finitely many backend polls" clause at backend level is not covered by a theorem here.',
     design='5 C09', technique='Coq invariant proof (publish-on-drain) over the sequential queue model + source-fact translator + differential correspondence')
 TRUSTED = [
     'Coq 8.16.1 kernel; theorems Closed under the global context',
@@ -41,6 +42,67 @@ def gen_c09(rng):
     return B.unparse(['bq', str(wb), str(k), str(b), '1', '1', str(pct)], ops)
 
 
+def unbounded_clause(ck, tier, mexe, facts, broken):
+    """the unbounded-queue clause: Props/Properties_C09u.v as obligations, the sequential M-UQ model against the real
+    UnboundedSPSCQueue, the C09 monitor on the implementation, and the open finding D13 (KNOWN-FINDING while it replays)"""
+    from props.c02 import flags_from, with_flags, WRAP
+    for o in ck.coq_obligations('Properties_C09u'):
+        if not o['discharged']:
+            broken.append('theorem %s: %s' % (o['name'], o['why']))
+    iexe, err = ck.build_harness('uq', ['uq.cpp'], flags=WRAP)
+    if not iexe:
+        ck.violation('no-failing-input-found', 'harness uq.cpp does not compile against /repo: ' + err[-600:]); return {}
+    findings = [f for f in json.load(open(os.path.join(VERIF, 'known_findings.d', PID + '.json'))) if f.get('status') == 'open']
+    d13 = next((f for f in findings if f['id'] == 'D13'), None)
+    replays = []
+    if d13 and d13.get('replay'):
+        replays = [l.strip() for l in open(os.path.join(VERIF, d13['replay'])) if l.strip() and not l.startswith('#')]
+    n = 600 if tier == 'quick' else 30000
+    fl = flags_from(facts)
+    cases = [with_flags(c, fl) for c in replays + U.boundary_cases() + [U.gen_c09u(ck.rng) for _ in range(n)] + [U.gen_case(ck.rng, allow_uncommitted=False) for _ in range(n // 3)]]
+    ml = ck.run_model(mexe, cases); il = ck.run_impl(iexe, cases)
+
+    def known_match(case, impl_line, msg):
+        # only the specific shape: max not a power of two and every refusal at quiescence has prev_pow2(max) < n <= max
+        if d13 and 'refused although every record was read' in (msg or '') and U.d13_shape(case, impl_line):
+            return '%s open: %s' % (d13['id'], d13['what'])
+        return None
+
+    def shrink(case, mode):
+        hdr, ops = U.parse(case)
+        def fails(o):
+            c = U.unparse(hdr, o); i = ck.run_impl(iexe, [c])[0]
+            if mode == 'monitor':
+                m = U.monitor_c09u(c, i)
+                return m is not None and known_match(c, i, m) is None
+            return ck.run_model(mexe, [c])[0] != i
+        return U.unparse(hdr, ddmin(ops, fails))
+    dis, mon = correspond(ck, 'M-UQ sequential layer vs UnboundedSPSCQueue (C09 clause)', cases, ml, il,
+                          monitor=U.monitor_c09u, shrink=shrink, known_match=known_match)
+    known_hits = sum(1 for (c, m, i, mf) in mon if known_match(c, i, mf))
+    # non-trivial: a write issued at consumer quiescence that does not fit the current node (so that growth decides)
+    def nt(case, line):
+        try:
+            hdr, ev, allocs, frees, live = U.walk(case, line)
+        except ValueError:
+            return False
+        written = read = 0; dirty = False; pcap = allocs[0] if allocs else 0
+        for idx, o, v in ev:
+            if o[0] == 'W':
+                if written == read and not dirty and o[1] > pcap and o[1] <= int(hdr[7]): return True
+                if v[0] == 1: written += 1
+                pcap = v[2]
+            elif o[0] == 'R':
+                if v[0]: read += 1; dirty = True
+            elif o[0] == 'CR': dirty = False
+            elif o[0] == 'S': pcap = v[0]
+        return False
+    return {'cases': len(cases), 'disagreements': len(dis), 'monitor_failures': len(mon), 'monitor_failures_known_D13': known_hits,
+            'distinct_nontrivial': len(set(c for c, i in zip(cases, il) if nt(c, i))), 'traces': len(cases) - len(dis) - (len(mon) - known_hits),
+            'rule': 'op sequences on the real UnboundedSPSCQueue that drain completely (reads until null, commit_read) and then ask for pcap, pcap+1, 2pcap, prev_pow2(max)-1, prev_pow2(max), prev_pow2(max)+1, max-1, max; max in 12 values (6 not powers of two); non-trivial = a write at consumer quiescence larger than the current node and <= max',
+            'samples': [cases[0], cases[len(cases) // 2][:300]]}
+
+
 def run(tier):
     ck = Check(PID, tier)
     broken = standard_proof_phase(ck, 'Properties_C09')
@@ -70,6 +132,7 @@ def run(tier):
                          observed='refused for ever (theorem C09_stall_refuted_without_drain_publish)')
         else:
             ck.violation('no-failing-input-found', '; '.join(broken))
+    uq_cov = unbounded_clause(ck, tier, mexe, facts, broken)
     # non-trivial: the history reaches a quiescent drained state with unpublished < batch and then asks for > C - unpublished
     def nt(case):
         hdr, ops = B.parse(case); C = 1 << int(hdr[2]); ref = B.Ref(C, int(hdr[3]), on_drain=False); hit = False
@@ -86,15 +149,24 @@ def run(tier):
     ntc = len(set(c for c in cases if nt(c)))
     return ck.finish(trusted=TRUSTED, samples=[cases[0], cases[-1][:400]],
                      rule='op sequences on the real queue (3 integer widths); half aimed at the D3 shape: small write, drain, commit_read leaving unpublished in [1,batch), then a write of C-unpublished, C-unpublished+1 or C; non-trivial = at some write the queue is empty, the consumer quiescent, the pinned tree would not have published (unpublished < batch) and the record needs more than C-unpublished bytes; distinct by case text',
-                     evaluations=len(cases), distinct_nontrivial=ntc, traces=len(cases) - len(dis) - len(mon),
-                     extra_cov={'disagreements': len(dis), 'monitor_failures': len(mon)})
+                     evaluations=len(cases) + uq_cov.get('cases', 0), distinct_nontrivial=ntc + uq_cov.get('distinct_nontrivial', 0),
+                     traces=len(cases) - len(dis) - len(mon) + uq_cov.get('traces', 0),
+                     extra_cov={'disagreements': len(dis), 'monitor_failures': len(mon), 'unbounded_clause': uq_cov})
 
 
 def replay(path):
     d = json.load(open(path)); ck = Check(PID, 'quick'); c = d.get('case')
     if not isinstance(c, str):
         print(json.dumps(d, indent=1)[:2000]); return 1
-    mexe, _ = ck.build_modelrun(); iexe, _ = ck.build_harness('bq', ['bq.cpp'])
+    mexe, _ = ck.build_modelrun()
+    if c.startswith('uq '):
+        from props.c02 import WRAP
+        iexe, _ = ck.build_harness('uq', ['uq.cpp'], flags=WRAP)
+        i = ck.run_impl(iexe, [c])[0]
+        print('case :', c); print('model:', ck.run_model(mexe, [c])[0]); print('impl :', i); print('monitor:', U.monitor_c09u(c, i))
+        if U.monitor_c09u(c, i) and U.d13_shape(c, i): print('KNOWN-FINDING: property=%s D13 open (max capacity not a power of two and prev_pow2(max) < n <= max)' % PID)
+        return 1 if U.monitor_c09u(c, i) else 0
+    iexe, _ = ck.build_harness('bq', ['bq.cpp'])
     i = ck.run_impl(iexe, [c])[0]
     print('case :', c); print('model:', ck.run_model(mexe, [c])[0]); print('impl :', i); print('monitor:', B.monitor_c09(c, i))
     return 1 if B.monitor_c09(c, i) else 0
